@@ -25,6 +25,14 @@ def path_key(p):
     return (p.get('origin'), tuple(sorted((p.get('accessors') or {}).items())))
 
 
+def _mentions_call(t, name):
+    if isinstance(t, tuple):
+        if len(t) >= 4 and t[0] in ('call', 'vcall') and contracts.fn_simple(t[1]) == name:
+            return True
+        return any(_mentions_call(x, name) for x in t)
+    return False
+
+
 def run(ck, F):
     ck.explanation = (
         'For every type constructor of type_factory the factory body is evaluated symbolically (branch-free '
@@ -168,6 +176,53 @@ def run(ck, F):
         ck.check(RC, name, c1 == c2 and len(c1) == 1,
                  f'{name} does not hold: {[c[0] for c in c1]} vs {[c[0] for c in c2]}', loc=F.fn[f1]['loc'], fn=f1,
                  detail={'table': c1[0][0] if c1 else None})
+    # the natural calling convention is the one spelled with the empty word: a transfer spelled out with get_calling_convention("")
+    # is the natural transfer only if the empty spelling is one String (the constant) and its logogram the invisible one
+    import words
+    ok_e, why_e, fi = words.empty_word_outcome(F)
+    ck.check(RC, 'the empty spelling is the empty String', ok_e, f'{fi["id"]}: {why_e}: the convention spelled "" by a client is not the natural '
+             'convention, so a request that spells out the natural transfer is not the request that omits it', loc=fi['loc'], fn=fi['id'])
+    gl = [g for g in F.fn.values() if g['name'] == 'get_logogram' and (g.get('parent') or '').endswith('name_factory') and len(g['params']) == 1
+          and 'ipr::String' in g['params'][0]['t']]
+    if len(gl) != 1:
+        raise AnalysisBroken('name_factory::get_logogram(const String&) not found')
+    S4 = Sym(F, opaque=keyrule.key_opaque(F), max_depth=48)
+    try:
+        louts = S4.run(gl[0]['id'])
+    except Unsupported as e:
+        raise AnalysisBroken(f'{gl[0]["id"]}: {e}')
+    nat = [g for g in F.globals if g['name'] == 'natural_cc' or g['q'].endswith('::natural_cc')]
+    inv_q = None
+    if nat:
+        refs = [n for n in walk(nat[0].get('init')) if n.get('k') == 'ref' and n.get('kind') == 'global']
+        inv_q = refs[0]['q'] if refs else None
+    if inv_q is None:
+        raise AnalysisBroken('the logogram of the natural calling convention was not found')
+
+    def empty_says(c, val):
+        if isinstance(c, tuple) and len(c) >= 4 and c[0] in ('call', 'vcall') and contracts.fn_simple(c[1]) == 'empty':
+            return bool(val)
+        if isinstance(c, tuple) and len(c) == 4 and c[0] == 'op' and c[1] in ('==', '!=') and (c[2][:2] == ('k', 0) or c[3][:2] == ('k', 0)) \
+                and any(isinstance(t, tuple) and len(t) >= 4 and t[0] in ('call', 'vcall') and contracts.fn_simple(t[1]) in ('size', 'length') for t in (c[2], c[3])):
+            return bool(val) if c[1] == '==' else (not val)
+        return None
+    good_inv, leak = False, []
+    for st, k, v in louts:
+        if k != 'return':
+            continue
+        says = [x for x in (empty_says(c, val) for c, val in st.conds) if x is not None]
+        is_inv = v == ('global', inv_q)
+        if says and says[0] is True:
+            good_inv = is_inv
+        elif not says and not is_inv and not _mentions_call(v, 'word_if_known'):
+            # (a path that answers with the reserved-word node found for the spelling is not taken for the empty spelling:
+            #  no reserved word is empty)
+            leak.append(contracts.render_conds(st.conds, st, {})[:80])
+    ck.check(RC, 'the empty spelling has the invisible logogram', good_inv and not leak,
+             f'{gl[0]["id"]}: the empty spelling is not answered with {contracts.short(inv_q)}, the logogram of the natural calling convention '
+             f'({"a path for the empty spelling yields another logogram: " + str(leak[:2]) if leak else "no path for the empty spelling"})',
+             loc=gl[0]['loc'], fn=gl[0]['id'])
+
     # default exception specification = the false constant of the Lexicon
     RD = ck.rule('C01.default-eh', 'get_function without an exception specification is get_function with the '
                  'Lexicon\'s false constant', floor=2)
